@@ -250,6 +250,7 @@ func c01(c *ctx) {
 	defer c01Bounce(c)
 	defer c01ChooseInModification(c)
 	defer c01AssocResponse(c)
+	defer c01RepeatedRuleIDs(c)
 	w, err := newWorld(c, sysh.Opts{UEAlloc: true, Pool: "10.250.0.0/16", EndMarker: true, ReadTimeout: 30})
 	if err != nil {
 		panic(err)
@@ -751,5 +752,60 @@ func c01AssocResponse(c *ctx) {
 		c.t.Case("c01/assocresp/"+v.name, n > 0, "assocresp %s %d => %d %d %s", v.name, n, b01(alive), b01(ok), crash)
 		p0.Close()
 		w.close()
+	}
+}
+
+// c01RepeatedRuleIDs: rule-ID IEs that are repeated inside one grouped IE (a QER ID twice in a Create / Update PDR, at every position,
+// with the repeated ID being the session's QER or an application QER). Well-formed datagrams; whatever the agent makes of them, it
+// answers once and goes on serving the association.
+func c01RepeatedRuleIDs(c *ctx) {
+	w, err := newWorld(c, sysh.Opts{ReadTimeout: 600})
+	if err != nil {
+		panic(err)
+	}
+	defer w.close()
+	w.quiet = true
+	if !w.start() {
+		return
+	}
+	w.wait = 1500 * time.Millisecond
+	lists := [][2][]uint32{
+		{{1, 4, 4}, {2, 4}}, {{4, 1, 4}, {2, 4}}, {{4, 4, 1}, {4, 2}}, {{4, 4}, {4}}, {{1, 1, 4}, {2, 4}}, {{1, 4}, {2, 4, 2, 4}},
+	}
+	for i, l := range lists {
+		for _, how := range []string{"create", "update"} {
+			w.assoc(0)
+			pdrs, fars, _ := w.genSession(0)
+			qers := []sysh.QerIE{{ID: 1, Qfi: 9, Mbr: [2]uint64{1000, 2000}}, {ID: 2, Qfi: 9, Mbr: [2]uint64{2000, 4000}}, {ID: 4, Qfi: 9, Mbr: [2]uint64{50000, 50000}}}
+			var o sysh.Obs
+			if how == "create" {
+				pdrs[0].Qers, pdrs[1].Qers = l[0], l[1]
+				w.nextCP++
+				_, o = w.est(0, w.nodes[0], w.nextCP, pdrs, fars, qers, "c01-repeated-qer-id")
+			} else {
+				pdrs[0].Qers, pdrs[1].Qers = []uint32{1, 4}, []uint32{2, 4}
+				w.nextCP++
+				h, _ := w.est(0, w.nodes[0], w.nextCP, pdrs, fars, qers, "c01-repeated-qer-id")
+				if h == nil {
+					continue
+				}
+				u0, u1 := pdrs[0], pdrs[1]
+				u0.Qers, u1.Qers = l[0], l[1]
+				o = w.mod(0, h.up, modReq{up: []sysh.PdrIE{u0, u1}}, "c01-repeated-qer-id")
+			}
+			alive := !w.s.Exited()
+			crash := "-"
+			if !alive {
+				crash = strings.ReplaceAll(w.s.CrashInfo(), " ", "_")
+			} else if !o.Alive || o.N == 0 {
+				crash = "wedged"
+			}
+			c.t.Case("c01/repeated-rule-id/"+how, o.N > 0, "c01 session %s-pdr-with-repeated-qer-id %s => %d %d %d %d %s", how,
+				hexs(fmt.Sprintf("lists %d: %v %v", i, l[0], l[1])), o.N, o.Type, b01(alive), b01(o.Alive && o.N > 0), crash)
+			if !alive || crash == "wedged" {
+				return
+			}
+			w.release(0)
+		}
 	}
 }
